@@ -18,6 +18,9 @@ package prometheus
 //@ guarded tunnelTimeMetrics.{ip2info,tunnelTimePerKey,tunnelTimePerLocation} class immutable set by newTunnelTimeMetrics
 //@ guarded activeClient.{connCount,startTime} class confined records are reachable only through activeClients and touched only with tunnelTimeMetrics.mu held (checked at the access sites below)
 //@ guarded activeClient.{info} class immutable set when the record is created
+// The address (and, for UDP, the key) a connection's tunnel was started with is the one it is stopped with.
+//@ guarded udpConnMetrics.{clientAddr,accessKey,clientInfo,udpServiceMetrics,tunnelTimeMetrics} class immutable set by newUDPConnMetrics
+//@ guarded tcpConnMetrics.{clientAddr,localAddr,clientInfo,tcpServiceMetrics,tunnelTimeMetrics} class immutable set by newTCPConnMetrics
 
 //@ pred validTT(c *tunnelTimeMetrics) := c != nil && c.tunnelTimePerKey != nil && c.tunnelTimePerLocation != nil
 
@@ -144,6 +147,9 @@ package prometheus
 //@   params tcpServiceMetrics tunnelTimeMetrics clientConn clientInfo
 //@   requires validTCPSM(tcpServiceMetrics) && validTT(tunnelTimeMetrics) && clientConn != nil
 //@   ensures result != nil && result.accessKey == ""
+//@   ensures[C15,C17,reports-under-the-location-of-this-connection] result.clientInfo == clientInfo && result.tcpServiceMetrics == tcpServiceMetrics && result.tunnelTimeMetrics == tunnelTimeMetrics
+//@   trace[C15,C17,C20,addresses-are-those-of-this-connection] holds result.clientAddr == evres("net.Conn.RemoteAddr", 0) && result.localAddr == evres("net.Conn.LocalAddr", 0)
+//@   trace[C15,C17,C20,addresses-asked-of-this-connection] each net.Conn.*Addr satisfies $recv == clientConn
 //@   trace[C15,opened-once] exactly 1 prometheus.(*tcpServiceMetrics).openConnection
 //@   trace[C17,no-tunnel-before-auth] never prometheus.(*tunnelTimeMetrics).startConnection
 
@@ -183,6 +189,8 @@ package prometheus
 //@   requires validUDPSM(udpServiceMetrics) && validTT(tunnelTimeMetrics) && clientAddr != nil
 //@   ensures result != nil
 //@   ensures[C16,C17,reports-under-the-key-and-location-of-this-association] result.accessKey == accessKey && result.clientInfo == clientInfo && result.udpServiceMetrics == udpServiceMetrics && result.tunnelTimeMetrics == tunnelTimeMetrics
+//@   ensures[C17,stopped-under-the-address-it-was-started-with] result.clientAddr == clientAddr
+//@   trace[C17,started-under-the-address-of-this-association] each prometheus.toIPKey satisfies $arg0 == clientAddr && $arg1 == accessKey
 //@   trace[C16,added-once] exactly 1 prometheus.Counter.Inc
 //@   trace[C17,start-at-most-once] atmost 1 prometheus.(*tunnelTimeMetrics).startConnection
 
